@@ -119,8 +119,11 @@ def attribute(cfgs_by_digest):
     for c in g:
       if c["hashseed"] != "random":
         by_seed[c["hashseed"]].add(d)
+  n_per_seed = collections.Counter(c["hashseed"] for g in groups for c in g if c["hashseed"] != "random")
   if all(len(v) == 1 for v in by_seed.values()) and len({next(iter(v)) for v in by_seed.values()}) > 1:
-    return "PYTHONHASHSEED"
+    if max(n_per_seed.values(), default=0) >= 2:
+      return "PYTHONHASHSEED"          # configurations sharing a seed agree, different seeds differ
+    return "hash seed or history (every configuration of this tier has its own hash seed)"
   return "unattributed (address layout / gc / mixed factors)"
 
 
